@@ -1,6 +1,9 @@
 package verifh
 
 func init() {
+	register(propC01{})
+	register(propC02{})
+	register(propC07{})
 	register(propC10{})
 	register(propC11{})
 	register(propC12{})
